@@ -79,7 +79,7 @@ def run(ctx: Ctx) -> None:
             mode, keys, rse, dca = conf[:4]
             pool, runmode = (conf[4], conf[5]) if len(conf) > 4 else ("long" if ci >= 7 else "str", "disabled")
             for kind in ("mem", "sqlite"):
-                app = make_app(kind, ctx.tmp, app_id=f"c07{kind}{ci}", min_size_to_cache=64)
+                app = make_app(kind, ctx.tmp, app_id=f"c07{kind}{ci}", min_size_to_cache=64, auto_final_invocation_purge_hours=0.0)
                 opts: dict[str, Any] = {"registration_concurrency": C(mode)}
                 if runmode != "disabled":
                     opts["running_concurrency"] = C(runmode)
@@ -184,6 +184,16 @@ def run(ctx: Ctx) -> None:
                         if impl[0] == "new" and impl[1] in [i for i in invs if i != impl[1]]:
                             ctx.report(f"id-reused[{kind}]", f"[{kind}] 'new' invocation id already existed", rep)
                         census_check("submission")
+                    elif r < 0.66:
+                        # the housekeeping of a runner purges the finished invocations (they are due at once here): whatever else
+                        # carries the same argument values must stay findable
+                        finals = [i for i in invs if o.get_invocation_status(i).is_final()]
+                        o.auto_purge()
+                        for i in finals:
+                            drv.ask(f"o.forget {tok(i)}")
+                            del invs[i]
+                        ctx.distinct((kind, ci, "auto-purge", min(len(finals), 3)))
+                        census_check("auto-purge")
                     else:
                         i = ctx.rng.choice(list(invs))
                         st = o.get_invocation_status(i)
